@@ -164,8 +164,8 @@ CHECKS["C18"] = dict(
 )
 
 CHECKS["C19"] = dict(
-    rules="R19.1-R19.11",
-    what="definition-kind coverage: every statement kind for which stubgen's DefinitionFinder records a top-level name has an emitting visit method in ASTStubGenerator; the string-producing visitors (AliasPrinter, AnnotationPrinter) return a value on every path of every visit method; decorators collected for a function are cleared on every path on which visit_func_def does not emit it; per-class state of visit_class_def is restored (not reset) when a class ends; unary operators that are words are not glued to their operand; every possibly-True return of is_private_name lies behind the `__all__` membership test (R19.7); stubgen's package-__init__ test for relative imports asks the file's base name (R19.8); a builtin replacement written into the stub is imported when it needs an alias (R19.9); quoted arguments of Literal[...] bypass the type-name rewriting (R19.10); TypeAlias / Final are recognised through the import table, not by the written name (R19.11)",
+    rules="R19.1-R19.12",
+    what="definition-kind coverage: every statement kind for which stubgen's DefinitionFinder records a top-level name has an emitting visit method in ASTStubGenerator; the string-producing visitors (AliasPrinter, AnnotationPrinter) return a value on every path of every visit method; decorators collected for a function are cleared on every path on which visit_func_def does not emit it; per-class state of visit_class_def is restored (not reset) when a class ends; unary operators that are words are not glued to their operand; every possibly-True return of is_private_name lies behind the `__all__` membership test (R19.7); stubgen's package-__init__ test for relative imports asks the file's base name (R19.8); a builtin replacement written into the stub is imported when it needs an alias (R19.9); quoted arguments of Literal[...] bypass the type-name rewriting (R19.10); TypeAlias / Final are recognised through the import table, not by the written name (R19.11); bytes literals are written from their stored text, never through repr() (R19.12)",
     quant="generated modules x definition kinds x modes",
     technique="sibling cross-check of the two visitors' method sets with reachability of the emission call inside the generator class; CFG must-pass (every path returns a value) over the printers' methods",
     note="Syntactic validity of the emitted text, its self-consistency under type checking, agreement with the runtime module (stubtest) and preservation of the spelled annotations are properties of the output per input module and are not decided. The claim is two necessary conditions of 'every public definition appears' and 'the stub is valid text'.",
